@@ -16,7 +16,7 @@ RULE = ('generated module shapes; evaluation = one observation line (post-instan
         'compared with V8; distinct = distinct (shape signature incl. segment/global counts, observation kind, instance)')
 
 TYPES = [I32, I64, F32, F64]
-NAMES = ['get', 'a_b', 'a__b', 'Xy', 'x.y', 'k-1', 'with space', 'q$', 'UPPER', 'z9', '_lead', 'trail_', 'a___b', 'p:q', 'm/n',
+NAMES = ['get', 'a_b', 'a__b', 'Xy', 'x.y', 'k-1', 'with space', 'q$', 'UPPER', 'z9', '_lead', 'trail_', 'a___b', 'p:q', 'm/n', 'q"uote', 'back\\slash', 'new\nline', '??/', '%s%n',
          'm\u00e9moire', '\u8a08\u6570', '\u0080x', 'z\U0010ffff', 'na\u00efve_\u00e9__\u00fc', '\u07ff', 'X\ufffdX']
 
 
@@ -42,8 +42,9 @@ def build(rnd, k):
     host = m.import_func('env', 'note', [I32, I64], [])
     # names of imported memories/tables/globals are passed to the embedder's resolver verbatim (they are strings, not C
     # identifiers): use spellings that the identifier mangling would change (double underscores, dots, 'X', UTF-8)
-    imod = lambda: rnd.choice(['env', 'env', 'GOT.mem', 'a__b', 'X', 'h\u00f4te', 'wasi:io/x'])
-    deco = lambda base: rnd.choice(['%s', '__%s', '%s.x', 'X%s', '%s__base', '%s-1', '\u8a08%s', '%s X2E', '_%s_']) % base
+    imod = lambda: rnd.choice(['env', 'env', 'GOT.mem', 'a__b', 'X', 'h\u00f4te', 'wasi:io/x', '%100', '%s'])
+    # (names are data: conversion specifications, quotes and backslashes in them must reach the resolver verbatim)
+    deco = lambda base: rnd.choice(['%s', '__%s', '%s.x', 'X%s', '%s__base', '%s-1', '\u8a08%s', '%s X2E', '_%s_', '%s%%d', '%%s%s%%n', '%s%%', '%s\\n', '%s"q']) % base
     if memk == 'imported':
         m.imports.append((imod(), deco('mem'), 'memory', (rnd.randint(1, 2), rnd.choice([None, 4]), False)))
     if tblk == 'imported':
@@ -195,6 +196,7 @@ def script_for(rnd, plan, m, exports, shape, tsize, gtypes):
 
     emit('I 0', 'inst', 0)
     emit('t', 'starttrace', 0)
+    emit('U 0', 'exportnames', 0)
     dump(0)
     if tblk != 'none':
         emit('T 0 0', 'table', 0)
@@ -214,6 +216,7 @@ def script_for(rnd, plan, m, exports, shape, tsize, gtypes):
     # without shared memories a child is observably a fresh instance built with the same resolver, whose start function runs on the child
     emit('N 0 1' if rnd.random() < (0.7 if memk == 'shared' else 0.4) else 'I 1', 'inst', 1)
     emit('t', 'starttrace', 1)
+    emit('U 1', 'exportnames', 1)
     dump(1)
     dump(0)
     for i in range(30):
@@ -308,6 +311,34 @@ def nul_name_probe(chk, w2c2):
         chk.violation('C06:symbol:nul-in-export-name', 'exports named "a\\0b" / "a\\0c": compiled %s vs reference %s' % (out[:4], ref[:4]), files)
 
 
+def leading_digit_probe(chk, w2c2):
+    """Separately keyed probe: an import MODULE name that begins with a digit. The documented symbol of an imported function and the
+    instance field of an imported global / memory / table are <module>__<name>, which then begins with a digit and is no identifier."""
+    m = Module()
+    m.import_func('3d', 'draw', [I32], [I32])
+    m.imports.append(('1st', 'g', 'global', (I32, False)))
+    m.add_func([I32], [I32], [], [('local.get', 0), ('call', 0), ('global.get', 0), ('i32.add',)], export='f')
+    b = m.encode()
+    plan = e2e.Plan(m, import_inits={('1st', 'g'): 5})
+    script = 'I 0\nc 0 %d 0x7\nt\n' % plan.fk('f')
+    d = env.subdir('c06-digit')
+    st, ref, _ = e2e.run_ref(b, plan, script, d)
+    if st != 'ok':
+        chk.log('note: reference rejected the leading-digit probe (%s); probe skipped' % str(ref)[:100])
+        return
+    t = e2e.translate(w2c2, b, os.path.join(d, 'c'), 'm')
+    chk.ev(2)
+    chk.distinct(('leading-digit-probe',))
+    files = {'module.wasm': b, 'script.txt': script}
+    if t.rc != 0:
+        chk.violation('C06:symbol:import-module-leading-digit', 'module importing from "3d" / "1st" rejected by the translator: %s' % t.err[-300:], files)
+        return
+    r = env.run(['gcc', '-fsyntax-only', '-w', '-I', e2e.base_include(), '-I', os.path.join(d, 'c'), os.path.join(d, 'c', 'm.c')], timeout=120)
+    if r.rc != 0:
+        chk.violation('C06:symbol:import-module-leading-digit', 'imports from modules named "3d" and "1st": the generated C does not compile (identifier %s): %s' % (
+            '3d__draw / 1st__g', r.err.strip().splitlines()[0][-200:] if r.err.strip() else ''), files)
+
+
 def main(chk):
     quick = chk.tier == 'quick'
     w2c2 = env.build_translator('plain')
@@ -400,6 +431,7 @@ def main(chk):
         if k < 2:
             chk.sample({'shape': shape, 'lines': ref[:5]})
     nul_name_probe(chk, w2c2)
+    leading_digit_probe(chk, w2c2)
     chk.observe('shapes', nshapes, 'set')
     chk.observe('generator_rejected', rejected, 'set')
     if rejected * 100 > nshapes:
